@@ -25,7 +25,9 @@ RULE = ("1..4 ROUNDS of [store 0..12 more rows, then impute] with the SAME imput
 ASSUMPTIONS = ["one-shot iterators are not generated as subsets (no caller passes one; re-iteration is inherent in n_samples > 1)",
                "the storage is non-empty whenever MarginalImputer is asked (randrange(0) is the documented callers' precondition)"]
 
-SUBSET_TYPES = ['list', 'tuple', 'set', 'frozenset', 'keys']
+SUBSET_TYPES = ['list', 'tuple', 'set', 'frozenset', 'keys', 'generator', 'iter']
+# hash-equal values of different type or sign: True == 1 == 1.0, 0.0 == -0.0
+typed_value = st.sampled_from([['b', 1], ['i', 1], ['f', 1], ['b', 0], ['i', 0], ['f', 0], ['nz'], ['i', 2], ['f', 2]])
 
 
 def _subset(kind, names):
@@ -37,6 +39,10 @@ def _subset(kind, names):
         return set(names)
     if kind == 'frozenset':
         return frozenset(names)
+    if kind == 'generator':
+        return (n for n in list(names))     # a one-shot iterable
+    if kind == 'iter':
+        return iter(list(names))
     return {n: None for n in names}.keys()
 
 
@@ -81,8 +87,21 @@ def run_case(case):
     return Result(True, nontrivial=nt, labels=sorted(set(labels)))
 
 
+def _typed(v, mode):
+    """Values that compare equal but are different objects for a type-sensitive model: True == 1 == 1.0, 0.0 == -0.0."""
+    if isinstance(v, list):
+        if mode == 'exact':
+            return num(0 if v[0] == 'nz' else v[1], mode)
+        return {'b': lambda: bool(v[1]), 'i': lambda: int(v[1]), 'f': lambda: float(v[1]), 'nz': lambda: -0.0}[v[0]]()
+    return num(v, mode)
+
+
+def _strict(v):
+    return (type(v).__name__, repr(v))
+
+
 def _obs(names, values, mode, perm=0, opt=None):
-    items = [(n, num(v, mode)) for n, v in zip(names, values)]
+    items = [(n, _typed(v, mode)) for n, v in zip(names, values)]
     if perm and len(items) > 1:
         items = list(reversed(items)) if perm % 2 else items[1:] + items[:1]
     x = dict(items)
@@ -95,11 +114,16 @@ def one_impute(imp, model, storage, names, mode, tag, defaults, rnd, ri):
     d = len(names)
     x = _obs(names, rnd['x'], mode, rnd.get('x_perm') or 0, rnd.get('x_opt'))
     sub_names = [names[i] for i in rnd['subset']]
-    subset = _subset(rnd['subset_type'], sub_names)
+    stype = rnd['subset_type']
+    if stype in ('generator', 'iter') and not (tag == 'default' or rnd['n_samples'] == 1):
+        stype = 'list'     # re-iteration is inherent in n_samples > 1 for the sampling imputers: one-shot iterables only where sound
+    subset = _subset(stype, sub_names)
+    one_shot = stype in ('generator', 'iter')
+    model.mutate_input = bool(rnd.get('mutating_model'))
     xs_before = [dict(r) for r in storage.get_data()[0]]
     ys_before = list(storage.get_data()[1])
     x_before = dict(x)
-    subset_before = list(subset)
+    subset_before = list(sub_names) if one_shot else list(subset)
     n = rnd['n_samples']
     mark = len(model.calls)
     fault_at = rnd.get('fault_at')
@@ -122,7 +146,7 @@ def one_impute(imp, model, storage, names, mode, tag, defaults, rnd, ri):
         if x != x_before or list(x) != list(x_before):
             return Result(False, key=f'C06:{tag}:instance-modified-after-fault',
                           detail=f'round {ri + 1}: model evaluation {fault_at} raised; x_i was left as {x!r} instead of {x_before!r}')
-        if list(subset) != subset_before:
+        if not one_shot and list(subset) != subset_before:
             return Result(False, key=f'C06:{tag}:subset-modified-after-fault', detail='subset changed')
         if [dict(r) for r in storage.get_data()[0]] != xs_before or list(storage.get_data()[1]) != ys_before:
             return Result(False, key=f'C06:{tag}:storage-modified-after-fault', detail='storage content changed by a failed impute')
@@ -132,23 +156,26 @@ def one_impute(imp, model, storage, names, mode, tag, defaults, rnd, ri):
     where = f'round {ri + 1}: '
     if x != x_before or list(x) != list(x_before):
         return Result(False, key=f'C06:{tag}:instance-modified', detail=where + f'x_i changed from {x_before!r} to {x!r}')
-    if list(subset) != subset_before:
+    if not one_shot and list(subset) != subset_before:
         return Result(False, key=f'C06:{tag}:subset-modified', detail=where + 'the feature subset was modified')
     xs_after = [dict(r) for r in storage.get_data()[0]]
     if xs_after != xs_before or list(storage.get_data()[1]) != ys_before:
         return Result(False, key=f'C06:{tag}:storage-modified', detail=where + f'storage content changed: {xs_before!r} -> {xs_after!r}')
     if not isinstance(preds, list) or len(preds) != n:
         return Result(False, key=f'C06:{tag}:prediction-count', detail=where + f'{len(preds) if hasattr(preds, "__len__") else preds!r} predictions for n_samples={n}')
-    if tag == 'default':
-        if len(calls) not in (1, n):
-            return Result(False, key='C06:default:model-calls', detail=where + f'{len(calls)} model evaluations')
-    elif len(calls) != n:
+    # the property fixes the number of returned predictions, not the number of model evaluations (identical inputs may be evaluated
+    # once): between 1 and n evaluations, and every returned prediction is the model's output for one of the recorded inputs
+    if not 1 <= len(calls) <= n:
         return Result(False, key=f'C06:{tag}:model-calls', detail=where + f'{len(calls)} model evaluations for n_samples={n}')
     for i, p in enumerate(preds):
-        inp, _ids, out = calls[i if len(calls) == n else 0]
-        if p != out:
-            return Result(False, key=f'C06:{tag}:prediction-mismatch', detail=where + f'prediction {i} is {p!r} but the model returned {out!r} for its input')
+        if len(calls) == n:
+            ok = p == calls[i][2]
+        else:
+            ok = any(p == c[2] for c in calls)
+        if not ok:
+            return Result(False, key=f'C06:{tag}:prediction-mismatch', detail=where + f'prediction {i} is {p!r}, which is not what the model returned for the recorded input(s)')
     stored = xs_before
+    stored_raw = list(storage.get_data()[0])
     for inp, _ids, out in calls:
         if set(inp) != set(x):
             return Result(False, key=f'C06:{tag}:input-keys', detail=where + f'model input has keys {list(inp)!r}, the instance has {list(x)!r}')
@@ -158,16 +185,21 @@ def one_impute(imp, model, storage, names, mode, tag, defaults, rnd, ri):
         for f in names:
             if f not in sub_names and not (inp[f] == x[f]):
                 return Result(False, key=f'C06:{tag}:outside-subset-changed', detail=where + f'feature {f!r} outside the subset {sub_names!r} is {inp[f]!r}, x has {x[f]!r}')
+        eq = (lambda a, b: _strict(a) == _strict(b)) if rnd.get('typed') else (lambda a, b: a == b)
+        if rnd.get('typed'):
+            for f in names:
+                if f not in sub_names and _strict(inp[f]) != _strict(x[f]):
+                    return Result(False, key=f'C06:{tag}:outside-subset-changed', detail=where + f'feature {f!r} outside the subset is {inp[f]!r}, x has {x[f]!r} (equal but not the same value)')
         if tag == 'default':
             for f in sub_names:
                 if inp[f] != defaults[f]:
                     return Result(False, key='C06:default:not-default', detail=where + f'feature {f!r} is {inp[f]!r}, configured default {defaults[f]!r}')
         elif tag == 'joint':
-            if sub_names and not any(all(inp[f] == r[f] for f in sub_names) for r in stored):
+            if sub_names and not any(all(eq(inp[f], r[f]) for f in sub_names) for r in stored_raw):
                 return Result(False, key='C06:joint:not-one-row', detail=where + f'imputed values { {f: inp[f] for f in sub_names}!r} do not come from ONE currently stored row of {stored!r}')
         else:
             for f in sub_names:
-                if not any(inp[f] == r[f] for r in stored):
+                if not any(eq(inp[f], r[f]) for r in stored_raw):
                     return Result(False, key='C06:product:not-a-stored-value', detail=where + f'feature {f!r} = {inp[f]!r} is no value of that feature in a currently stored observation {stored!r}')
     distinct_rows = len({tuple(sorted(map(repr, r.items()))) for r in stored})
     differs = all(any(x[f] != r[f] for f in sub_names) for r in stored) if sub_names else False
@@ -180,7 +212,7 @@ def one_impute(imp, model, storage, names, mode, tag, defaults, rnd, ri):
 def cases(draw):
     d = draw(st.integers(1, 5))
     names = draw(cfgs.names_st(d))
-    style = draw(st.sampled_from(['ties', 'distinct', 'distinct']))
+    style = draw(st.sampled_from(['ties', 'distinct', 'distinct', 'typed']))
     n_rounds = draw(st.sampled_from([1, 1, 2, 3, 4]))
     rounds = []
     serial = 0
@@ -189,8 +221,14 @@ def cases(draw):
         rows = []
         for _ in range(nrows):
             serial += 1
-            rows.append([draw(st.integers(-2, 2)) for _ in range(d)] if style == 'ties' else [10 * serial + f for f in range(d)])
-        x = [draw(st.integers(-2, 2)) for _ in range(d)] if style == 'ties' else [-(f + 1) for f in range(d)]
+            if style == 'typed':
+                rows.append([draw(typed_value) for _ in range(d)])
+            else:
+                rows.append([draw(st.integers(-2, 2)) for _ in range(d)] if style == 'ties' else [10 * serial + f for f in range(d)])
+        if style == 'typed':
+            x = [draw(typed_value) for _ in range(d)]
+        else:
+            x = [draw(st.integers(-2, 2)) for _ in range(d)] if style == 'ties' else [-(f + 1) for f in range(d)]
         shape = draw(st.sampled_from(['empty', 'proper', 'proper', 'proper', 'full'])) if d >= 2 else draw(st.sampled_from(['empty', 'full']))
         if shape == 'empty':
             subset = []
@@ -203,10 +241,13 @@ def cases(draw):
         rounds.append({'rows': rows, 'x': x, 'subset': list(subset), 'subset_type': draw(st.sampled_from(SUBSET_TYPES)),
                        'n_samples': n_samples, 'positional': draw(st.booleans()),
                        'x_perm': draw(st.sampled_from([0, 0, 1, 2])), 'x_opt': draw(st.sampled_from([None, None, 5])),
+                       'typed': style == 'typed',
+                       # a model function that works IN PLACE on the dict it is given (e.g. a pipeline that renames keys)
+                       'mutating_model': draw(st.integers(0, 5)) == 0,
                        # every fifth round: the model raises at one of its evaluations inside impute
                        'fault_at': draw(st.integers(1, n_samples)) if draw(st.integers(0, 4)) == 0 else None})
     return {
-        'names': names, 'mode': draw(st.sampled_from(['exact', 'float'])),
+        'names': names, 'mode': 'float' if style == 'typed' else draw(st.sampled_from(['exact', 'float'])),
         'spec': draw(cfgs.model_st(d)), 'storage': draw(cfgs.storage_st()), 'rounds': rounds,
         'imputer': draw(st.sampled_from(['joint', 'product', 'default', 'joint', 'product'])),
         'defaults': [draw(st.integers(-3, 3)) for _ in range(d)], 'script': draw(gen.script),
